@@ -68,12 +68,10 @@ def insertWordBreaks (s : Bytes) (maxChars : Int) : Bytes :=
 
 /-! ## truncate -/
 
-/-- `for !utf8.RuneStart(str[maxLen]) { maxLen-- }`: `none` = index out of range
-    (str[-1] after running off the front, or maxLen ≥ len) -/
+/-- `for maxLen > 0 && !utf8.RuneStart(str[maxLen]) { maxLen-- }`: stops at index 0 without
+    looking at it; `none` = index out of range (maxLen ≥ len, which the caller excludes) -/
 def scanBack (str : Bytes) : Nat → Option Nat
-  | 0 => match str[0]? with
-    | some b => if runeStart b then some 0 else none
-    | none => none
+  | 0 => some 0
   | n + 1 => match str[n + 1]? with
     | some b => if runeStart b then some (n + 1) else scanBack str n
     | none => none
@@ -97,7 +95,7 @@ def truncate (str : Bytes) (args : List Arg) : Res Bytes :=
     | some e =>
       let cut : Int := if e && maxLen > 3 then maxLen - 3 else maxLen
       let e' : Bool := e && maxLen > 3
-      if cut < 0 then .panic                          -- str[maxLen] with a negative index
+      if cut < 0 then .panic                          -- str[:maxLen] with a negative bound
       else match scanBack str cut.toNat with
         | none => .panic
         | some k => .ok (str.take k ++ (if e' then ellipsisBytes else []))
